@@ -53,6 +53,31 @@ Check (C19_completed_implies_match : forall cfg servers n owned evs h addrs,
     dns_source_ok s1 src sp /\ dp = pq_port pq /\ dns_header_ok pkt (pq_txid pq) /\
     dns_answer_matches cfg pkt pq addrs).
 
+Check (C19_completed_original_question : forall cfg servers n owned evs h addrs,
+  cfg_ok cfg -> Forall ev_ok evs ->
+  nth_error (ds_queries (dns_run cfg (dns_new cfg servers n owned) evs)) h = Some (Some (QCompleted addrs)) ->
+  exists evs0 evq evm src sp dp pkt evs2 pq0 pq,
+    evs = (evs0 ++ evq :: evm) ++ EvRsp src sp dp pkt :: evs2 /\
+    ((exists name t tx pt, evq = EvQuery name t tx pt) \/ (exists raw t m tx pt, evq = EvQueryRaw raw t m tx pt)) /\
+    nth_error (ds_queries (dns_run cfg (dns_new cfg servers n owned) (evs0 ++ [evq]))) h = Some (Some (QPending pq0)) /\
+    pq_timeout_at pq0 = None /\
+    nth_error (ds_queries (dns_run cfg (dns_new cfg servers n owned) (evs0 ++ evq :: evm))) h = Some (Some (QPending pq)) /\
+    dns_qid pq = dns_qid pq0 /\
+    dns_source_ok (dns_run cfg (dns_new cfg servers n owned) (evs0 ++ evq :: evm)) src sp /\
+    dp = pq_port pq0 /\ dns_header_ok pkt (pq_txid pq0) /\
+    dns_answer_matches cfg pkt pq addrs).
+
+Check (C19_response_never_rewrites_query : forall cfg s src sp dp pkt s' acc h pq pq',
+  dns_ingress cfg s src sp dp pkt = Ok (s', acc) ->
+  nth_error (ds_queries s) h = Some (Some (QPending pq)) ->
+  nth_error (ds_queries s') h = Some (Some (QPending pq')) -> pq' = pq).
+
+Check (C19_query_identity_stable : forall cfg s ev h pq pq',
+  cfg_ok cfg -> sock_ok cfg s ->
+  nth_error (ds_queries s) h = Some (Some (QPending pq)) ->
+  nth_error (ds_queries (fst (dns_step cfg s ev))) h = Some (Some (QPending pq')) ->
+  dns_qid pq' = dns_qid pq).
+
 Check (C19_on_chain_from_records : forall pkt head rs addrs a,
   dns_on_chain pkt head rs addrs -> In a addrs ->
   exists r, In r rs /\ (r_data r = RdA a \/ r_data r = RdAaaa a)).
@@ -186,3 +211,10 @@ Check (C19_example_servers :
   dns_step c19_cfg c19_started (EvHop (Some 0)) = (c19_started, ObHop Panic) /\
   dns_tx_hop c19_started = 64 /\
   dns_tx_hop (dns_run c19_cfg c19_started [EvHop (Some 7)]) = 7).
+
+Check (C19_example_cname_twostep :
+  dns_run c19_cfg c19_started [EvRsp c19_server 53 50000 c19_rsp_cname_cut] = c19_started /\
+  dns_run c19_cfg c19_started [EvRsp c19_server 53 50000 c19_rsp_cname_cut;
+                               EvRsp c19_server 53 50000 c19_rsp_other_question] = c19_started /\
+  (exists st, dns_process_query c19_cfg c19_rsp_cname_cut
+                (mkPending [1; 97; 1; 98; 0] 1 50000 4660 (Some 10000000) 1000000 2000000 0 false) = Ok (QPending st))).
